@@ -49,6 +49,13 @@ S gs; int k;
 export function upd(int a, float b) -> float { gs.i = gs.i + a; gs.f = b; gs.v.y = gs.f; k = k + 1; return gs.f + gs.i + gs.v.y; }
 export function copy() -> float { S t; t = gs; t.i = 100; t.v.x = 5.0; return gs.i + gs.v.x + t.i; }
 """,
+    "nested": """struct In { int x; int[2] a; }
+struct Out { In inner; int[3] arr; float3 v; }
+Out gs;
+export function loc(int i, int v) -> int { Out s; s.arr[i] = s.arr[i] + v; s.inner.x = s.inner.x + v; s.inner.a[1] = s.inner.a[1] + 1; s.v.y = s.v.y + 1.0; return s.arr[0] + s.arr[1] * 10 + s.arr[2] * 100 + s.inner.x * 1000 + s.inner.a[1] * 10000; }
+export function glo(int i, int v) -> int { gs.inner.x = gs.inner.x + v; gs.arr[i] = v; gs.inner.a[0] = gs.inner.a[0] + 1; Out t; t = gs; t.arr[i] = 5; t.inner.a[0] = 9; return gs.arr[i] + gs.inner.a[0] * 10; }
+export function arrs(int i, int v) -> int { In one; one.a[i] = one.a[i] + v; int[2][2] m; m[i][i] = m[i][i] + v; float3[2] vs; vs[i].x = vs[i].x + 1.0; return one.a[0] + one.a[1] * 10 + m[0][0] * 1000 + m[1][1] * 10000 + (vs[i].x > 1.5) * 100000; }
+""",
     "calls": """int depth; int total;
 function rec(int n) -> int { depth = depth + 1; if (n <= 0) return 0; total = total + n; return rec(n - 1) + 1; }
 export function run(int n) -> int { int before = total; int r = rec(n); return r * 100 + (total - before); }
@@ -60,7 +67,7 @@ export function h(int a) -> int { int x; if (a > 0) { x = 7; } return x + g; }
 """,
 }
 BOUNDS = {"i": (0, 2), "j": (0, 1), "n": (0, 3)}
-PROGRAM_BOUNDS = {"array2d": {"i": (0, 1), "j": (0, 1)}, "array": {"i": (0, 2), "top": (0, 2)}}
+PROGRAM_BOUNDS = {"array2d": {"i": (0, 1), "j": (0, 1)}, "array": {"i": (0, 2), "top": (0, 2)}, "nested": {"i": (0, 1)}}
 
 
 def alphabet(prog):
